@@ -13,6 +13,19 @@ pub fn check(env: &Env, s: &str, rec: &mut Rec) {
     for (p, want) in &wants {
         let got = api::rule(*p, RuleK::Additional, s);
         rec.eval();
+        let owned = api::rule_owned(*p, RuleK::Additional, s);
+        rec.eval();
+        if owned != got {
+            rec.violation(
+                "space-rule-owned-argument-differs",
+                Witness {
+                    op: format!("{}::additional_mapping_rule(String) vs (&str)", p.name()),
+                    case: format!("label={}", util::esc(s)),
+                    expected: api::show_r(&got),
+                    observed: api::show_r(&owned),
+                },
+            );
+        }
         if got != Out::Ok(want.clone()) {
             rec.violation(
                 if *p == Prof::Nick { "nickname-space-rule-differs-from-split-join-reference" } else { "opaque-space-mapping-differs-from-reference" },
@@ -106,7 +119,7 @@ const ALPHA: [char; 8] = [' ', '\u{A0}', '\u{2003}', '\u{3000}', 'a', '\u{E9}', 
 pub fn run(env: &Env) -> Rec {
     let mut rec = Rec::new();
     let d16 = env.d16();
-    let max_len = if env.quick() { 6 } else { 7 };
+    let max_len = if env.quick() { 7 } else { 8 };
     let k = ALPHA.len();
     let total = util::n_strings(k, max_len);
     let per = 4096usize;
@@ -165,7 +178,7 @@ pub fn run(env: &Env) -> Rec {
     });
     rec.merge(r2);
     rec.exhaustive("every Unicode scalar value c in the contexts c, SP c SP, a SP c, c SP SP d");
-    let n = env.n(100_000, 3_000_000);
+    let n = env.n(1_000_000, 30_000_000);
     let per = 2000usize;
     let r3 = par(n.div_ceil(per), |c, rec| {
         let mut rng = Rng::stream(env.seed, 0x12_0000 + c as u64);
@@ -192,6 +205,88 @@ pub fn run(env: &Env) -> Rec {
         }
     });
     rec.merge(r3);
+    // long inputs: space runs of every kind at and around power-of-two byte offsets, after pure-ASCII and
+    // multi-byte prefixes, trailing spaces after multi-byte words; same-length variants in one buffer
+    let n_long = env.n(20_000, 600_000);
+    let per = 200usize;
+    let r4 = par(n_long.div_ceil(per), |c, rec| {
+        let mut rng = Rng::stream(env.seed, 0x12_C000 + c as u64);
+        let p = env.pools();
+        super::hostile::drive(
+            &mut rng,
+            per,
+            65536,
+            |rng| {
+                let mut t = String::new();
+                match rng.below(6) {
+                    0 => t.push_str("  "),
+                    1 => t.push(' '),
+                    2 => {
+                        for _ in 0..rng.range(1, 3) {
+                            t.push(if rng.chance(1, 2) { ' ' } else { *rng.pick(&p.zs) });
+                        }
+                    }
+                    3 => {
+                        t.push_str("\u{65E5}\u{672C}\u{8A9E}");
+                        t.push(' ');
+                    }
+                    4 => {
+                        t.push(*rng.pick(&p.zs));
+                        t.push('x');
+                        t.push(*rng.pick(&p.zs));
+                    }
+                    _ => {
+                        gen::push_kind(p, rng, gen::Kind::FourByte, &mut t);
+                        t.push(' ');
+                    }
+                }
+                t
+            },
+            |s| check(env, s, rec),
+        );
+    });
+    rec.merge(r4);
+    // block-structured strings: every sequence of up to 5 (quick) / 6 (thorough) block-level symbols
+    {
+        let ml = if env.quick() { 5 } else { 6 };
+        let k = super::hostile::SPACE_MACROS.len();
+        let total = util::n_strings(k, ml);
+        let per = 2048usize;
+        let rm = par(total.div_ceil(per), |c, rec| {
+            let mut idx = Vec::new();
+            let mut s = String::new();
+            for n in c * per..((c + 1) * per).min(total) {
+                util::nth_seq(k, n, &mut idx);
+                s.clear();
+                for i in &idx {
+                    s.push_str(super::hostile::SPACE_MACROS[*i]);
+                }
+                check(env, &s, rec);
+            }
+        });
+        rec.merge(rm);
+        rec.exhaustive(format!("all sequences of up to {} block-level symbols (16/15-byte ASCII blocks, 18/16-byte multi-byte runs, SP, SP SP, A0, 3000, a, one CJK character)", ml));
+    }
+    // deterministic: a double / trailing / non-ASCII space at every byte offset 0..=80 of an ASCII and of a mixed word
+    for off in 0..=80usize {
+        for sp in ["  ", " ", "\u{A0}", "\u{2003}\u{A0}", " \u{3000}"] {
+            for fill in ['a', '\u{E9}'] {
+                let mut s = String::new();
+                while s.len() + fill.len_utf8() <= off {
+                    s.push(fill);
+                }
+                while s.len() < off {
+                    s.push('a');
+                }
+                s.push_str(sp);
+                check(env, &s, &mut rec);
+                s.push_str("the hermit");
+                check(env, &s, &mut rec);
+                s.push_str(" \u{65E5}\u{672C}\u{8A9E} ");
+                check(env, &s, &mut rec);
+            }
+        }
+    }
     rec
 }
 
